@@ -565,20 +565,27 @@ theorem sweepEntry_swapOp (op : Op R) (i : Nat) (d : List R) :
   unfold sweepEntry swapOp
   by_cases hi : i < d.length
   · simp only [hi, dite_true]
-    unfold accumulate
-    by_cases hl : op.leftParent < d.length <;> by_cases hr : op.rightParent < d.length
-    · simp only [hl, hr, dite_true, List.length_set]
-      congr 1
-      by_cases heq : op.leftParent = op.rightParent
-      · simp only [heq, List.getElem_set_self, List.set_set]
+    by_cases h1 : op.leftParent = i <;> by_cases h2 : op.rightParent = i
+    · simp only [h1, h2, if_true]
+    · simp only [h1, h2, if_true, if_false]
+      cases accumulate d op.rightParent (d[i] * op.rightDerivative) <;> rfl
+    · simp only [h1, h2, if_true, if_false]
+      cases accumulate d op.leftParent (d[i] * op.leftDerivative) <;> rfl
+    · simp only [h1, h2, if_false]
+      unfold accumulate
+      by_cases hl : op.leftParent < d.length <;> by_cases hr : op.rightParent < d.length
+      · simp only [hl, hr, dite_true, List.length_set]
         congr 1
-        ring
-      · have heq' : op.rightParent ≠ op.leftParent := fun e => heq e.symm
-        simp only [List.getElem_set_ne heq, List.getElem_set_ne heq']
-        exact List.set_comm _ _ heq'
-    · simp [hl, hr, List.length_set]
-    · simp [hl, hr, List.length_set]
-    · simp [hl, hr, List.length_set]
+        by_cases heq : op.leftParent = op.rightParent
+        · simp only [heq, List.getElem_set_self, List.set_set]
+          congr 1
+          ring
+        · have heq' : op.rightParent ≠ op.leftParent := fun e => heq e.symm
+          simp only [List.getElem_set_ne heq, List.getElem_set_ne heq']
+          exact List.set_comm _ _ heq'
+      · simp [hl, hr, List.length_set]
+      · simp [hl, hr, List.length_set]
+      · simp [hl, hr, List.length_set]
   · simp [hi]
 
 theorem sweepFrom_swapEquiv {t t' : Tape R} (h : SwapEquiv t t') (i : Nat) (d : List R) :
